@@ -58,3 +58,9 @@ package symbols
 //@     invariant [complete] all(i, 0, range_i1, imp(!has(this.ntIdMap, this.typeMap[i]), some(j, 0, len(terminals), terminals[j] == this.typeMap[i])))
 //@     invariant [reserved] imp(range_i1 >= 1 && !has(this.ntIdMap, this.typeMap[0]), len(terminals) >= 1 && terminals[0] == this.typeMap[0])
 //@       | && imp(range_i1 >= 2 && !has(this.ntIdMap, this.typeMap[0]) && !has(this.ntIdMap, this.typeMap[1]), len(terminals) >= 2 && terminals[1] == this.typeMap[1])
+//@
+//@ func (*Symbols).List
+//@   prop C02 C04 C10
+//@   requires [this] this != nil
+//@   ensures [value] result == this.typeMap
+//@   assigns nothing
